@@ -142,25 +142,34 @@ def work_model(arg):
             if abs(der - n) > tol * abs(n):
                 v('sp-derivative', f'p dpi/dp at p={p:.6g} is {der:.9g} but the loading is {n:.9g}', n, der)
     # array queries: one value per pressure, equal to the scalar evaluations; the argument is left as it was
-    if ok.all() and name not in QUAD_MODELS:      # the quadrature-based models take one pressure at a time (an array is refused loudly)
-        for kind, arr in (('1-d', numpy.array(ps, dtype=float)), ('2 elements', numpy.array(ps[2:4], dtype=float)), ('0-d', numpy.array(ps[3])), ('list', list(ps))):
-            if kind == 'list' and name in QUAD_MODELS:
-                continue
+    # (the quadrature-based models take one pressure at a time: they may refuse an array loudly; what they return is judged)
+    if ok.all():
+        quad = name in QUAD_MODELS
+        for kind, arr in (('1-d', numpy.array(ps, dtype=float)), ('2 elements', numpy.array(ps[2:4], dtype=float)), ('0-d', numpy.array(ps[3])), ('list', list(ps)),
+                          ('1-d from 0', numpy.array([0.0] + list(ps), dtype=float)), ('list from 0', [0] + list(ps)), ('tuple', tuple(ps[1:4]))):
             keep = numpy.array(arr, dtype=float).copy()
             o = core.call(m.spreading_pressure, arr)
             out['ev'] += 1
             if not o.ok:
-                if kind == 'list':
+                if kind in ('list', 'list from 0', 'tuple') or quad:
+                    out['array_refused'] = out.get('array_refused', 0) + 1
                     continue        # plain lists are not part of the numeric interface of every model
+                if kind == '1-d from 0' and name in ('DR', 'DA'):
+                    continue
                 v('sp-array', f'spreading_pressure({kind} array) {o.brief()} although the scalar evaluations return', None, o.brief(), {'shape': kind, 'kind': o.kind})
                 continue
             out['nt'] += 1
-            want = sps if kind in ('1-d', 'list') else (sps[2:4] if kind == '2 elements' else sps[3])
+            want = {'1-d': sps, 'list': sps, '2 elements': sps[2:4], '0-d': sps[3], '1-d from 0': numpy.concatenate([[0.0], sps]),
+                    'list from 0': numpy.concatenate([[0.0], sps]), 'tuple': sps[1:4]}[kind]
             got = numpy.asarray(o.value, dtype=float)
+            if name == 'TemkinApprox' and kind.endswith('from 0'):
+                want = numpy.array(want, dtype=float)
+                want[0] = got.reshape(-1)[0]       # the zero point of this model is judged (and recorded) by the zero clause above
             if got.shape != numpy.shape(want) and not (kind == '0-d' and got.size == 1):
                 v('sp-array', f'spreading_pressure({kind} array of {numpy.size(keep)} pressures) returned shape {got.shape}: {got if got.size < 4 else got[:3]}; expected one value per pressure',
                   want, got, {'shape': kind})
-            elif core.relerr(got.reshape(-1), numpy.asarray(want, dtype=float).reshape(-1)) > (1e-7 if name in QUAD_MODELS else 1e-11):
+            elif core.relerr(got.reshape(-1)[1 if kind.endswith('from 0') else 0:], numpy.asarray(want, dtype=float).reshape(-1)[1 if kind.endswith('from 0') else 0:]) > (1e-7 if quad else 1e-11) \
+                    or (kind.endswith('from 0') and abs(got.reshape(-1)[0] - want[0]) > 1e-12 * max(1.0, abs(sps).max())):
                 v('sp-array', f'spreading_pressure({kind} array) = {got} differs from the scalar evaluations {want}', want, got, {'shape': kind})
             if not numpy.array_equal(numpy.asarray(arr, dtype=float), keep):
                 v('sp-argument-modified', f'spreading_pressure changed the {kind} array passed to it', keep, arr, {'shape': kind})
@@ -283,12 +292,22 @@ def work_point(arg):
                         (dict(pressure_mode='relative'), float(ru.c_pressure(q, 'absolute', 'bar', 'relative', None, c)), 1.0, 'relative pressure'),
                         (dict(loading_unit='mol'), q, 1e-3, 'loading in mol'),
                         (dict(loading_basis='mass', loading_unit='g'), q, 1e-3 * c['M'], 'loading in g'),
-                        (dict(material_unit='kg'), q, 1e3, 'per kg of material')):
-                    if tag.startswith('last') and 'pressure' in name:
-                        continue    # the end knot expressed in another unit lands 1 ulp outside the range after conversion
+                        (dict(material_unit='kg'), q, 1e3, 'per kg of material'),
+                        # several arguments at once
+                        (dict(pressure_unit='kPa', loading_unit='mol'), q * 100.0, 1e-3, 'pressure in kPa + loading in mol'),
+                        (dict(pressure_unit='Pa', loading_unit='mol', material_unit='kg'), q * 1e5, 1.0, 'pressure in Pa + loading in mol per kg'),
+                        (dict(pressure_unit='MPa', material_unit='kg'), q * 0.1, 1e3, 'pressure in MPa + per kg'),
+                        (dict(pressure_mode='relative', loading_basis='mass', loading_unit='g'),
+                         float(ru.c_pressure(q, 'absolute', 'bar', 'relative', None, c)), 1e-3 * c['M'], 'relative pressure + loading in g'),
+                        (dict(loading_unit='mol', material_unit='kg'), q, 1.0, 'loading in mol per kg')):
                     iso = mk()
                     o = core.call(iso.spreading_pressure_at, qq, **kw)
                     out['ev'] += 1
+                    if tag.startswith('last') and 'pressure' in name and not o.ok and ('ValueError' in o.kind or o.kind == 'CalculationError'):
+                        # the end knot expressed in another unit may land 1 ulp outside the data after the conversion back:
+                        # the interpolator (ValueError) or the range test (CalculationError) then refuses the query openly; a value, if returned, is judged like any other
+                        out['refused_at_end'] = out.get('refused_at_end', 0) + 1
+                        continue
                     out['nt'] += 1
                     if not o.ok or abs(float(o.value) - base * factor) > 1e-7 * abs(base * factor):
                         v('point-sp-unit-argument', f'spreading_pressure_at({qq:.6g}, {kw}) = {o.value if o.ok else o.brief()} but converting first gives {base * factor:.12g}',
